@@ -34,11 +34,15 @@ impl Srv {
             if let Some(p) = &o.password { c.arg("--pass").arg(p); }
             if o.aof { c.arg("--aof"); }
             c.current_dir(&dir).stdin(Stdio::null()).stdout(Stdio::null()).stderr(Stdio::null());
+            // the child creates <dir>/.ready once ITS listener is bound: a successful connect alone could
+            // reach the server of a parallel harness process that was handed the same "free" port
+            let ready = dir.join(".ready");
+            let _ = std::fs::remove_file(&ready);
             let mut child = c.spawn().expect("spawn server");
             let t0 = Instant::now();
             loop {
                 if let Ok(Some(_)) = child.try_wait() { break; }
-                if std::net::TcpStream::connect(("127.0.0.1", port)).is_ok() { return Srv { child, port, dir }; }
+                if ready.exists() && std::net::TcpStream::connect(("127.0.0.1", port)).is_ok() { return Srv { child, port, dir }; }
                 if t0.elapsed() > Duration::from_secs(8) { let _ = child.kill(); let _ = child.wait(); break; }
                 std::thread::sleep(Duration::from_millis(5));
             }
@@ -64,7 +68,10 @@ pub fn serve(args: &[String]) {
     if args.iter().any(|a| a == "--aof") { cfg.aof.enabled = true; cfg.aof.dir = dir.clone(); }
     let _ = std::panic::take_hook();
     match ferrous::Server::from_config(cfg) {
-        Ok(mut s) => { let r = s.run(); eprintln!("server ended: {:?}", r.is_ok()); }
+        Ok(mut s) => {
+            let _ = std::fs::write(std::path::Path::new(&dir).join(".ready"), b"1");
+            let r = s.run(); eprintln!("server ended: {:?}", r.is_ok());
+        }
         Err(e) => { eprintln!("server failed to start: {}", e); std::process::exit(3); }
     }
 }
